@@ -199,6 +199,7 @@ type Exec struct {
 	maxSteps   int64
 	maxDec     int
 	maxDepth   int
+	depthFault int // vp.DepthIsFault: exceeding this call depth is a run-time fault (stack overflow), not a bound
 	known      []*KnownFinding
 	res        *HarnessResult
 	queue      *WorkQueue
@@ -320,6 +321,7 @@ func (e *Exec) resetPath(prefix []Decision) {
 	e.solver.journal = [][]int{nil, nil}
 	e.solver.ujourn = [][]string{nil, nil}
 	e.prefix = prefix
+	e.depthFault = 0
 	e.trace = nil
 	e.pos = 0
 	e.pc = nil
